@@ -70,6 +70,11 @@ func runReloadHistory(hot bool, first bool, ops string) (line string, c18 string
 			}
 			return fakeMgr{calls}, nil
 		}
+		if calls%2 == 1 {
+			// the idiom `return m, m.ParseWithSuffix(...)`: a failed build hands back a half-built, non-nil manager
+			// together with its error; it must never be put in service
+			return fakeMgr{-calls}, errBuild
+		}
 		return nil, errBuild
 	}
 	r, err := tpl.NewHTMLRender(builder, tpl.WithHotReload(hot))
